@@ -41,6 +41,9 @@ var c06DomainPatterns = [][]string{
 	{}, {},
 	{`.*blocked\.example$`},
 	{`^localhost$`, `.*\.internal$`},
+	// patterns that describe literal hosts as well (the pattern list is matched against the host as
+	// supplied, whatever it is)
+	{`^198\.18\.`, `^2001:db8:1234:`, `^0x0a\.`},
 }
 
 // IP literals used by the grammar: inside and outside the lists above
@@ -143,6 +146,8 @@ func c06Scenario(r *sim.Run) {
 
 	nregs := 1 + tp.Choose("nregs", 6)
 	finished := false
+	var prevClient *stClient
+	prevDialled := false
 	s.Spawn("director", func() {
 		for i := 0; i < nregs && !r.Failed(); i++ {
 			if i > 0 && tp.Prob("reload", 1, 4) {
@@ -212,6 +217,15 @@ func c06Scenario(r *sim.Run) {
 			if err != nil {
 				r.Fail("harness/c06-client", "%v", err)
 				return
+			}
+			// the client whose previous registration was refused registers again (same secret) with
+			// another covert address: whether the station takes the retry or ignores it as a repeat is
+			// not this property's question — what it dials is
+			retry := prevClient != nil && !prevDialled && tp.Prob("retry-same-secret", 1, 4)
+			if retry {
+				c = prevClient
+				class += "+retry"
+				r.Probe("retry_after_refusal")
 			}
 			c.covert = covert
 			c.v6 = false
@@ -304,8 +318,9 @@ func c06Scenario(r *sim.Run) {
 					}
 				}
 			}
+			prevClient, prevDialled = c, len(dialled) > 0
 			if len(dialled) == 0 {
-				if wellFormed && permitted(wfAP.Addr()) && !hostBlocked {
+				if wellFormed && permitted(wfAP.Addr()) && !hostBlocked && !retry {
 					r.Fail("C06/permitted-literal-rejected", "the well-formed, permitted covert %q was not accepted (no dial happened for a genuine connection)", covert)
 					return
 				}
@@ -372,7 +387,7 @@ func c06Scenario(r *sim.Run) {
 					}
 				}
 			}
-			if wellFormed {
+			if wellFormed && !retry {
 				dpn := -1
 				fmt.Sscanf(dp, "%d", &dpn)
 				if da.Unmap() != wfAP.Addr().Unmap() || dpn != int(wfAP.Port()) {
